@@ -156,9 +156,12 @@ def r_enqueue_guard(ctx, rule='R01.4', need_min=False):
         def accept(atoms, lit):
             return any(M.cmp_matches(a, child_ub, lb, '>=') and '>' in _rel(a, child_ub) for a in atoms)
         ok, cut, bad = M.guarded(c, [c.term_point(bb) for (bb, t) in pushes], accept)
-        ctx.check(ok, rule, tag + '/push-guard', c, c.loc(pushes[0][0]),
-                  'a cut-set node is pushed only on an edge asserting node.ub >|>= best_lb',
-                  'Fringe::push in enqueue_cutset is reachable without asserting cutset_node.ub > best_lb')
+        if need_min:
+            cut = []
+        else:
+            ctx.check(ok, rule, tag + '/push-guard', c, c.loc(pushes[0][0]),
+                      'a cut-set node is pushed only on an edge asserting node.ub >|>= best_lb',
+                      'Fringe::push in enqueue_cutset is reachable without asserting cutset_node.ub > best_lb')
         # nothing is discarded when ub > lb: from the '>' edge every path reaches push
         for (bbk, lab) in cut:
             tb = [t for (t, l) in c.succ(bbk) if l == lab][0]
@@ -651,24 +654,24 @@ def r_c04(ctx):
                 if 'Condvar' in (t.get('callee') or '') and 'wait' in (t.get('callee') or '').split('::')[-1]]
     ctx.check(len(allwaits) == len(waits), 'R04.4', 'wait-sites', gw, gw.loc(0), 'the only condvar wait is in get_workload (%d site)' % len(waits),
               'a condvar wait exists outside get_workload: %s' % allwaits)
-    if ctx.floor('R04.4', 'wait', gw, len(waits), 1, 'Condvar::wait call in get_workload'):
-        (wbb, wt) = waits[0]
+    ctx.floor('R04.4', 'wait', gw, len(waits), 1, 'Condvar::wait call in get_workload')
+    for wn, (wbb, wt) in enumerate(waits):
         wp = gw.term_point(wbb)
         a = [gw.origin.operand(x, wp) for x in wt['args']]
         ctx.check(M.is_field(a[0], 'monitor', 'Shared') and M.is_call(a[1], 'lock') and M.is_field(a[1][2][0], 'critical', 'Shared'),
-                  'R04.4', 'wait-args', gw, gw.loc(wbb), 'wait(monitor, guard of critical)', 'wait is called with (%s, %s)' % (M.show(a[0]), M.show(a[1])))
+                  'R04.4', 'wait-args#%d' % wn, gw, gw.loc(wbb), 'wait(monitor, guard of critical)', 'wait is called with (%s, %s)' % (M.show(a[0]), M.show(a[1])))
         # path-consistent check (B1'): on every feasible path to the wait, fringe.is_empty() holds (last query) and ongoing != 0
         res = _paths_to(gw, wp)
         ctx.stats['paths'] += res['n']
-        ctx.check(res['n'] > 0 and not res['bad_empty'], 'R04.4', 'wait-only-when-fringe-empty', gw, gw.loc(wbb),
+        ctx.check(res['n'] > 0 and not res['bad_empty'], 'R04.4', 'wait-only-when-fringe-empty#%d' % wn, gw, gw.loc(wbb),
                   'on each of the %d feasible paths to the wait the fringe was observed empty since its last mutation' % res['feasible'],
                   'a worker can wait although the fringe was not observed empty (it sleeps while work is available)')
-        ctx.check(res['n'] > 0 and not res['bad_ongoing'], 'R04.4', 'no-wait-when-ongoing-zero', gw, gw.loc(wbb),
+        ctx.check(res['n'] > 0 and not res['bad_ongoing'], 'R04.4', 'no-wait-when-ongoing-zero#%d' % wn, gw, gw.loc(wbb),
                   'no feasible path reaches the wait with ongoing == 0 (the completion test precedes it): somebody is left to wake the waiter',
                   'a worker can wait while ongoing == 0 and the fringe is empty: nobody is left to wake it up')
         # after the wait the function returns without assuming anything
         r = gw.reach(gw.after(wp))
-        ctx.check(not any(p in r for p in [gw.term_point(bb) for (bb, t) in gw.calls_to('Fringe::pop')]), 'R04.4', 'return-after-wait', gw, gw.loc(wbb),
+        ctx.check(not any(p in r for p in [gw.term_point(bb) for (bb, t) in gw.calls_to('Fringe::pop')]), 'R04.4', 'return-after-wait#%d' % wn, gw, gw.loc(wbb),
                   'after waking up the worker returns to its loop (re-evaluates everything)', 'after the wait the function goes on to pop without re-testing')
     # ---- P6 no re-entrant lock : r_locks ; P7 vector length coupled to nb_threads ---------------
     r_nb_threads(ctx)
@@ -936,6 +939,142 @@ def r_c19(ctx):
             if M.is_field(d, 'best_ub', 'SequentialSolver'):
                 ctx.check(body.name == gw.name, 'R19.1', 'who-writes-best_ub/' + (body.fn_name or 'closure'), body, body.loc(*pt),
                           'best_ub written in get_workload only', 'best_ub of the sequential solver is written in %s' % body.name)
-    r_enqueue_guard(ctx, rule='R01.4', need_min=True)
-    ctx.results[:] = [r for r in ctx.results if not (r['rule'] == 'R01.4')]
     # R19.5 monotone incumbent: R02.1 improve-only + R14 strict (re-used by the property module)
+
+
+# ------------------------------------------------------------------------------------------------
+# R09.6 — must_explore decision table (one-sided, site E6); R09.8 — open_by_layer accounting / clear_layer
+# ------------------------------------------------------------------------------------------------
+def r_must_explore(ctx, rule='R09.6'):
+    F = ctx.F
+    bodies = [b for b in F.bodies.values() if b.fn_name == 'must_explore' and b.kind != 'closure' and ((b.trait_default or '').endswith('cache::Cache') or (b.impl_trait or '').endswith('cache::Cache'))]
+    ctx.floor(rule, 'impls', None, len(bodies), 2, 'must_explore bodies (trait default + EmptyCache)')
+    from .dd_rules import _path_ret
+    for b in bodies:
+        ctx.analysed_bodies.add(b.name)
+        who = (b.impl_self_adt or 'Cache(default)').split('::')[-1]
+        paths = M.enumerate_paths(b, (0, 0))
+        n = 0
+        bad = []
+        for (edges, blocks, end) in paths:
+            atoms = M.path_atoms(b, edges)
+            if not M.consistent(atoms):
+                continue
+            n += 1
+            rt = _path_ret(b, blocks, end)
+            if M.is_const(rt, True):
+                continue   # exploring is always allowed
+            # the path may answer false: that is admissible only if value < theta, or value == theta and explored
+            val = lambda t: is_subproblem_field(t, 'value') and M.is_param(t[1], index=1)
+            def th(t, f):
+                return M.is_field(t, f, 'Threshold') and M.contains(t, lambda x: M.is_call(x, 'Cache::get_threshold') and is_subproblem_field(x[2][1], 'state')
+                                                                      and is_subproblem_field(x[2][2], 'depth') and x[2][1][1] == x[2][2][1] and M.is_param(x[2][1][1], index=1))
+            rel = frozenset('<=>')
+            for a in atoms:
+                if a[0] == 'cmp':
+                    if val(a[1]) and th(a[2], 'value'):
+                        rel = rel & a[3]
+                    elif val(a[2]) and th(a[1], 'value'):
+                        rel = rel & frozenset({'<': '>', '>': '<', '=': '='}[x] for x in a[3])
+            explored_true = any(a[0] == 'T' and th(a[1], 'explored') for a in atoms)
+            if M.is_const(rt, False):
+                ok = rel <= frozenset('<') or (rel == frozenset('=') and explored_true) or (rel <= frozenset('<=') and explored_true)
+            elif isinstance(rt, tuple) and rt[0] == 'not' and th(rt[1], 'explored'):
+                ok = rel <= frozenset('<=')
+            else:
+                ok = False
+            if not ok:
+                bad.append((sorted(rel), M.show(rt)))
+        ctx.stats['paths'] += n
+        ctx.check(n > 0 and not bad, rule, 'table/' + who, b, b.loc(0),
+                  'must_explore (%s): on each of the %d paths the answer can be false only when value < theta, or value == theta and the threshold is explored (no threshold => true)' % (who, n),
+                  'must_explore can answer false in a case where the sub-problem must be explored (value > theta, or value == theta with an unexplored threshold, or no threshold): %s' % bad[:3])
+
+
+def r_open_by_layer(ctx, rule='R09.8'):
+    F = ctx.F
+    obl = lambda t: isinstance(t, tuple) and t[0] == 'index' and solver_field(t[1], 'open_by_layer')
+    for tag, adt in SOLVERS:
+        # ---- pushes -----------------------------------------------------------------------------
+        b, c = _enqueue_closure(ctx, adt)
+        pushes = c.calls_to('Fringe::push')
+        ws = [(pt, d, v) for (pt, d, v, s) in writes(c) if obl(d)]
+        good = bool(ws) and bool(pushes)
+        if good:
+            (pbb, pt_) = pushes[0]
+            pp_ = c.term_point(pbb)
+            pushed = c.origin.operand(pt_['args'][1], pp_)
+            (wp, d, v) = ws[0]
+            depth_ok = is_subproblem_field(d[2], 'depth') and M.is_param(d[2][1]) and d[2][1][1] == c.name
+            delta = [x for x in v[1] if x != d] if isinstance(v, tuple) and v[0] == 'add' and d in v[1] else []
+            dl = delta[0] if len(delta) == 1 else None
+            delta_ok = isinstance(dl, tuple) and dl[0] == 'sub' and M.is_call(dl[1], 'Fringe::len') and M.is_call(dl[2], 'Fringe::len') and dl[1][3] and dl[2][3]
+            if delta_ok:
+                after_p, before_p = c.term_point(dl[1][3][1]), c.term_point(dl[2][3][1])
+                delta_ok = after_p in c.reach(c.after(pp_)) and pp_ in c.reach(c.after(before_p)) and pp_ not in c.reach(c.after(after_p))
+            r = c.reach(c.after(pp_), avoid=[wp])
+            must = not any(p in r for p in ret_points(c))
+            good = depth_ok and delta_ok and must
+        ctx.check(good, rule, tag + '/push-accounting', c, c.loc(pushes[0][0]) if pushes else c.loc(0),
+                  'every push of a cut-set node is followed by open_by_layer[node.depth] += len_after - len_before (a coalescing fringe is counted correctly)',
+                  'the open-node counter is not updated with (fringe.len() after - before) at the pushed node\'s depth after each push')
+        ib = ctx.body(adt, 'initialize')
+        ps = ib.calls_to('Fringe::push')
+        ws = [(pt, d, v) for (pt, d, v, s) in writes(ib) if obl(d)]
+        good = bool(ps) and bool(ws)
+        if good:
+            pushed = inline_helpers(F, ib.origin.operand(ps[0][1]['args'][1], ib.term_point(ps[0][0])))
+            dp = M.simplify_field(pushed, 'depth', None)
+            (wp, d, v) = ws[0]
+            good = M.is_const(dp, 0) and M.is_const(d[2], 0) and v == M.mk_add(d, ('const', 1, None, 'usize'))
+        ctx.check(good, rule, tag + '/root-accounting', ib, ib.loc(ps[0][0]) if ps else ib.loc(0), 'the root (depth 0) is pushed and open_by_layer[0] += 1', 'the root push is not accounted for in open_by_layer[0]')
+        # ---- pops -------------------------------------------------------------------------------
+        gw = ctx.body(adt, 'get_workload')
+        pops = [gw.term_point(bb) for (bb, t) in gw.calls_to('Fringe::pop')]
+        def popped_depth(t):
+            return is_subproblem_field(t, 'depth') and any(M.contains(x, lambda y: M.is_call(y, 'Fringe::pop')) for x in var_def_terms(gw, t[1]))
+        decs = [pt for (pt, d, v, s) in writes(gw) if obl(d) and popped_depth(d[2]) and v == ('sub', d, ('const', 1, None, 'usize'))]
+        zero = [gw.term_point(bb) for (bb, t) in gw.calls_to('for_each', 'fill')
+                if M.contains(gw.origin.operand(t['args'][0], gw.term_point(bb)), lambda x: solver_field(x, 'open_by_layer'))]
+        good = bool(pops) and bool(decs)
+        for p in pops:
+            r = gw.reach(gw.after(p), avoid=decs + zero)
+            if any(q in r for q in ret_points(gw)) or any(q in r for q in pops if q != p) or (p in r):
+                good = False
+        for dpt in decs:
+            r = gw.reach(gw.after(dpt), stop=pops)
+            if any(q in r for q in decs):
+                good = False
+        ctx.check(good, rule, tag + '/pop-accounting', gw, gw.loc(pops[0][0]) if pops else gw.loc(0),
+                  'every popped node is followed, before the function returns or pops again, by exactly one open_by_layer[popped.depth] -= 1 (or all counters are zeroed with the fringe)',
+                  'a popped node is not accounted for exactly once in open_by_layer (cache layers are cleared too early or never)')
+        # ---- clear_layer ------------------------------------------------------------------------
+        cl = gw.calls_to('Cache::clear_layer')
+        if ctx.floor(rule, tag + '/clear_layer', gw, len(cl), 1, 'Cache::clear_layer call'):
+            (bb, t) = cl[0]
+            cp = gw.term_point(bb)
+            arg = gw.origin.operand(t['args'][1], cp)
+            fal = lambda x: solver_field(x, 'first_active_layer')
+            ok1, _, _ = M.guarded(gw, [cp], lambda atoms, lit: any(M.cmp_matches(a, fal, lambda x: M.is_call(x, 'Problem::nb_variables'), '<') for a in atoms))
+            def zero_open(x):
+                terms = x[1] if isinstance(x, tuple) and x[0] == 'add' else (x,)
+                has_open = any(obl(y) and fal(y[2]) for y in terms)
+                has_ong = any(isinstance(y, tuple) and y[0] == 'index' and solver_field(y[1], 'ongoing_by_layer') and fal(y[2]) for y in terms)
+                return has_open and (has_ong or tag == 'seq') and len(terms) == (2 if tag == 'par' else 1)
+            ok2, _, _ = M.guarded(gw, [cp], lambda atoms, lit: any(M.cmp_matches(a, zero_open, lambda x: M.is_const(x, 0), '=') for a in atoms))
+            fw = [pt for (pt, d, v, s) in writes(gw) if fal(d) and v == M.mk_add(d, ('const', 1, None, 'usize'))]
+            r = gw.reach(gw.after(cp), avoid=fw)
+            ok3 = bool(fw) and cp not in r and not any(q in r for q in ret_points(gw))
+            ctx.check(fal(arg) and ok1 and ok2 and ok3, rule, tag + '/clear_layer-protocol', gw, gw.loc(bb),
+                      'clear_layer(l) is called only for l = first_active_layer < nb_variables with no open%s node at l, and the counter then advances' % (' or ongoing' if tag == 'par' else ''),
+                      'a cache layer can be cleared while nodes of that layer are still open%s (or for a layer other than first_active_layer, or without advancing)' % (' / being processed' if tag == 'par' else ''))
+        if tag == 'par':
+            # ongoing_by_layer: +1 with the work item's depth, -1 in notify_node_finished
+            ong = lambda t: isinstance(t, tuple) and t[0] == 'index' and solver_field(t[1], 'ongoing_by_layer')
+            wi = [(pt, d, v) for (pt, d, v, s) in writes(gw) if ong(d)]
+            good = bool(wi) and all(popped_depth(d[2]) and v == M.mk_add(d, ('const', 1, None, 'usize')) for (pt, d, v) in wi)
+            ctx.check(good, rule, 'par/ongoing_by_layer-inc', gw, gw.loc(*wi[0][0]) if wi else gw.loc(0), 'a handed-out node is counted in ongoing_by_layer at its depth', 'ongoing_by_layer is not incremented at the depth of the node handed out')
+            nf = ctx.body(adt, 'notify_node_finished')
+            wd = [(pt, d, v) for (pt, d, v, s) in writes(nf) if ong(d)]
+            good = bool(wd) and all(M.is_param(d[2], index=2) and v == ('sub', d, ('const', 1, None, 'usize')) for (pt, d, v) in wd)
+            ctx.check(good, rule, 'par/ongoing_by_layer-dec', nf, nf.loc(*wd[0][0]) if wd else nf.loc(0), 'a finished node is un-counted at the depth passed by the worker', 'ongoing_by_layer is not decremented at the finished node\'s depth')
